@@ -419,6 +419,17 @@ class HistoryRun:
         if os.path.exists(trace):
             os.unlink(trace)
         bp_path = lay["bp_path"]
+        if "app_version" in self.toggles.get(proj, ()) and proj != "ui":
+            # the blueprint is serialised BY the application (cargo px rebuilds it before every pavexc
+            # run), so after the version bump its component coordinates name the new version
+            import re as _re
+            bumped = os.path.join(self.slot.dir, f"bumped-{self.seq}.ron")
+            with open(bp_path) as f:
+                text = f.read()
+            text = _re.sub(r'(package_name: "simapp",\s*package_version: ")0\.1\.0"', r'\g<1>0.1.1"', text)
+            with open(bumped, "w") as f:
+                f.write(text)
+            bp_path = bumped
         if step.get("bp_locs") == "gone":
             # the same blueprint as serialised on another checkout: `file: "simapp/src/x.rs"` -> `file: "elsewhere/simapp/src/x.rs"`
             moved = os.path.join(self.slot.dir, f"moved-{self.seq}.ron")
